@@ -7,6 +7,7 @@ package main
 import (
 	"encoding/json"
 	"fmt"
+	"github.com/bluenviron/gomavlib/v3/pkg/frame"
 	"reflect"
 	"sort"
 
@@ -48,6 +49,11 @@ type gcase struct {
 	V2     bool   `json:"v2"`
 	Fill   int    `json:"fill"`
 	Damage []dmg  `json:"damage"`
+	// Signed: the reader also has an incoming key; the frames are signed with it AFTER the
+	// damage (a peer with a different definition of the message, or damage before signing):
+	// the signature is valid, the checksum is not. SignedKind selects the damage.
+	Signed     bool `json:"signed,omitempty"`
+	SignedKind int  `json:"signed_kind,omitempty"` // 0 none, 1 other CRC_EXTRA, 2 checksum low byte, 3 checksum high byte, 4 first payload byte
 }
 type dmg struct {
 	Pos int  `json:"pos"`
@@ -84,8 +90,85 @@ func goodFrame(mt *gm.MsgType, v2 bool, fillKind int, seq byte) []byte {
 	return f.Bytes()
 }
 
+var gateKey = func() []byte {
+	k := make([]byte, 32)
+	for i := range k {
+		k[i] = byte(3*i + 1)
+	}
+	return k
+}()
+
+func signedFrame(mt *gm.MsgType, fill int, seq byte, kind int) []byte {
+	it, _ := ref.ParseOne(goodFrame(mt, true, fill, seq))
+	f := it.Frame
+	switch kind {
+	case 1:
+		f.Checksum = f.ComputeChecksum(mt.Def.CRCExtra() ^ 0x5A)
+	case 2:
+		f.Checksum ^= 0x0001
+	case 3:
+		f.Checksum ^= 0x8000
+	case 4:
+		if len(f.Payload) > 0 {
+			f.Payload[0] ^= 0x10
+		} else {
+			f.Checksum ^= 0x0100
+		}
+	}
+	f.Incompat = 1
+	if kind == 0 {
+		f.Checksum = f.ComputeChecksum(mt.Def.CRCExtra()) // the incompat flag is part of the hashed header
+	}
+	f.LinkID, f.Timestamp = 3, 1000+uint64(seq)
+	f.Sig = f.Sign(gateKey)
+	return f.Bytes()
+}
+
+// evalGateSigned: keyed reader with a dialect; a validly signed frame with a wrong checksum is
+// refused with a non-fatal parse error, the validly signed well-formed one after it is delivered.
+func evalGateSigned(c gcase) string {
+	mt := byName[c.Type]
+	if mt == nil {
+		return ""
+	}
+	first := signedFrame(mt, c.Fill, 7, c.SignedKind)
+	trail := signedFrame(mt, 2, 8, 0)
+	data := append(append([]byte{}, first...), trail...)
+	calls, prob := gm.RunStream(&gm.Transport{Data: data}, mt.DRW, frame.NewV2Key(gateKey))
+	if prob != "" {
+		return prob
+	}
+	for i := range calls {
+		if d := gm.CheckDelivered(&calls[i], data, tindex, gateKey); d != "" {
+			return fmt.Sprintf("call %d: %s", i, d)
+		}
+	}
+	if len(calls) != 3 {
+		return fmt.Sprintf("expected [first, trailing frame, EOF], got %v", describe(calls))
+	}
+	if c.SignedKind == 0 {
+		if !calls[0].Decoded() || !calls[1].Decoded() {
+			return fmt.Sprintf("validly signed well-formed frames not delivered: %v", describe(calls))
+		}
+		return ""
+	}
+	if calls[0].Frame != nil {
+		return "a validly signed frame whose checksum is wrong for the dialect's CRC_EXTRA was delivered: " + calls[0].Describe()
+	}
+	if !calls[0].ReadErr {
+		return "wrong checksum on a signed frame did not produce a non-fatal parse error: " + calls[0].Describe()
+	}
+	if !calls[1].Decoded() {
+		return "trailing validly signed well-formed frame not delivered: " + calls[1].Describe()
+	}
+	return ""
+}
+
 // evalGate runs damaged frame + trailing good frame; returns problem.
 func evalGate(c gcase) string {
+	if c.Signed {
+		return evalGateSigned(c)
+	}
 	mt := byName[c.Type]
 	if mt == nil {
 		return ""
@@ -299,6 +382,14 @@ func main() {
 		switch w.mode {
 		case 0:
 			run(base)
+			if w.v2 {
+				// keyed reader: a valid signature does not excuse a wrong checksum
+				for kind := 0; kind <= 4; kind++ {
+					c := base
+					c.Signed, c.SignedKind = true, kind
+					run(c)
+				}
+			}
 			for pos := 0; pos < n; pos++ {
 				for bit := 0; bit < 8; bit++ {
 					c := base
@@ -341,13 +432,13 @@ func main() {
 		"damage to marker / length / incompat byte re-frames the stream: there only soundness on consumed bytes, totality and delivery of the trailing frame when the reader lands on it are asserted",
 	}
 	r.Finish(map[string]any{
-		"evaluations":           hashEvals.N() + nseg + gateEvals.N(),
-		"distinct_nontrivial":   states.N() + distinct.N(),
-		"rule":                  "hash: all 2^16 x 2^8 (state, byte) steps via all 3-byte strings, distinct = crc states reached (must be 65536); gate: per (message type, version, fill) the valid frame, every single-bit flip of every byte, byte substitutions and byte pairs, each followed by a good frame; distinct = (type, version, fill) base frames",
-		"hash_steps":            hashEvals.N(),
-		"crc_states_reached":    states.N(),
-		"hash_segmentations":    nseg,
-		"gate_streams":          gateEvals.N(),
-		"message_types":         len(corpus),
+		"evaluations":         hashEvals.N() + nseg + gateEvals.N(),
+		"distinct_nontrivial": states.N() + distinct.N(),
+		"rule":                "hash: all 2^16 x 2^8 (state, byte) steps via all 3-byte strings, distinct = crc states reached (must be 65536); gate: per (message type, version, fill) the valid frame, every single-bit flip of every byte, byte substitutions and byte pairs, each followed by a good frame; distinct = (type, version, fill) base frames",
+		"hash_steps":          hashEvals.N(),
+		"crc_states_reached":  states.N(),
+		"hash_segmentations":  nseg,
+		"gate_streams":        gateEvals.N(),
+		"message_types":       len(corpus),
 	})
 }
